@@ -218,16 +218,22 @@ func (e ev) String() string {
 		}
 		return s
 	}
+	short := func(t string) string {
+		if len(t) > 200 {
+			return fmt.Sprintf("%s...(%d bytes)", t[:24], len(t))
+		}
+		return t
+	}
 	switch e.kind {
 	case "text":
-		return fmt.Sprintf("text(%q)", e.text)
+		return fmt.Sprintf("text(%q)", short(e.text))
 	case "start":
 		if e.text != "" {
-			return fmt.Sprintf("tool-start#%d+args(%q)", e.tool, e.text)
+			return fmt.Sprintf("tool-start#%d+args(%q)", e.tool, short(e.text))
 		}
 		return fmt.Sprintf("tool-start#%d", e.tool)
 	case "args":
-		return fmt.Sprintf("args#%d(%q)", e.tool, e.text)
+		return fmt.Sprintf("args#%d(%q)", e.tool, short(e.text))
 	case "finish":
 		return "finish(" + e.fr + ")"
 	}
@@ -439,6 +445,9 @@ func judge(part string, seq []ev, input string, chunk int, strict bool, x expect
 	out, err, crash := runStream(input, chunk)
 	desc := fmt.Sprintf("%s: stream [%s] (transport chunk %d)", part, seqStr(seq), chunk)
 	rp := map[string]any{"engine": "ops", "part": part, "events": seqStr(seq), "chunk": chunk, "input": input}
+	if len(input) > 64<<10 {
+		rp["input"] = fmt.Sprintf("(%d bytes: rebuilt from the events)", len(input))
+	}
 	if crash != "" {
 		violate("crash-or-hang", map[string]any{"part": part}, desc+"\n"+crash, rp)
 		return
@@ -679,6 +688,33 @@ func cuts(s string, max int) [][]string {
 		}
 	}
 	return out
+}
+
+// e2long: one delta may be large - a backend that does not stream token by token sends a whole paragraph, a whole
+// document or a whole tool call's arguments in one line. Sizes around the powers of two that line buffers like
+// (64 KiB) up to just under the 1 MiB line limit, as the only text fragment and as the arguments of a whole-in-one-delta
+// tool call.
+func e2long() {
+	if report.Shard != 5%report.NShards {
+		return
+	}
+	for _, n := range []int{4 << 10, 60 << 10, 64<<10 - 40, 64 << 10, 70 << 10, 200 << 10, 900 << 10} {
+		text := strings.Repeat("0123456789abcdef", n/16)
+		args := `{"blob":"` + strings.Repeat("z", n) + `"}`
+		for _, seq := range [][]ev{
+			{{kind: "text", text: text}, {kind: "finish", fr: "stop"}, {kind: "usage"}, {kind: "done"}},
+			{{kind: "text", text: "a"}, {kind: "start", tool: 0, id: "call_0", name: "fn0", text: args}, {kind: "finish", fr: "tool_calls"}, {kind: "usage"}, {kind: "done"}},
+			{{kind: "start", tool: 0, id: "call_0", name: "fn0"}, {kind: "args", tool: 0, text: args}, {kind: "finish", fr: "tool_calls"}, {kind: "usage"}, {kind: "done"}},
+		} {
+			var sb strings.Builder
+			for _, e := range seq {
+				sb.WriteString(sseLine(e))
+			}
+			for _, chunk := range []int{0, 4096} {
+				judge(fmt.Sprintf("E2-long-%dKiB", n>>10), seq, sb.String(), chunk, true, expectOf(seq))
+			}
+		}
+	}
 }
 
 func e2() {
@@ -1155,6 +1191,7 @@ func main() {
 	e1(depth-1, false)
 	e3()
 	e2()
+	e2long()
 	res.Info["E3"] = "pairs from a catalogue of 5 (6 thorough) streams translated at the same time by one translator instance, one backend line per turn, every order of the turns; each output must equal the stream's output when translated alone"
 	res.Info["E4"] = fmt.Sprintf("every contiguous sequence to depth %d also through /olla/anthropic/v1/messages of the booted olla (both engines; streaming line by line, and buffered where the sequence is a finished completion): the client must receive what the translator produces for the same backend bytes", e2eDepth)
 	res.Info["bounds"] = map[string]any{"E1_depth": depth, "E1_alphabet": []string{"text(a)", "text(é🌍)", "tool-start", "tool-start+args", "args fragment", "finish(stop|tool_calls|length)", "usage", "malformed line", "[DONE]", "comment"},
